@@ -122,6 +122,7 @@ type event struct {
 	Outcome  string          `json:"outcome"` // ok | err | panic | timeout | fatal
 	Msg      string          `json:"msg"`
 	FxOk     bool            `json:"fxok"`
+	VFxOk    bool            `json:"vfxok"`
 	Afx      [][]int         `json:"afx"`
 	Has1     bool            `json:"has1"`
 	Has2     bool            `json:"has2"`
@@ -271,7 +272,7 @@ func baseEvent(c call) *event {
 	return &event{E: "call", K: c.K, Case: c.Case, Gen: g, Routine: c.Routine, Typ: c.Typ, Buf: c.Buf,
 		Cu: c.Cu, Cv: c.Cv, Vec: c.Vec, Setzero: c.Setzero, Eps: c.Eps, Outcome: "ok",
 		Afx: [][]int{}, F1: [][]int{}, F2: [][]int{}, F3: [][]int{}, Vals: []int{},
-		Pat1: noPat(), Pat2: noPat(), Pat3: noPat(), EigPair: []bool{},
+		Pat1: map[string]bool{}, Pat2: map[string]bool{}, Pat3: map[string]bool{}, EigPair: []bool{},
 		Recon: true, Sorted: true, ValsEx: true, FacEx: true, Agree: true, Middle: true, Invar: true}
 }
 
